@@ -342,6 +342,10 @@ CORPUS = [
     # no device wires and a gap in the integer labels of the circuit: fresh labels start above the LARGEST label
     case({"kind": "device", "dw": None, "ar": True}, [G(1, 2), G(0, 0), A([0]), G(3, 0, d0), G(1, d0), D([0])], meas=((0,), (2,)), sem=True),
     case({"kind": "device", "dw": None, "ar": False}, [G(1, 5), G(0, 1), A([0, 1]), G(3, 1, d0), G(3, d0, d1), D([0, 1])], meas=((1,), (5,)), sem=True),
+    # the same requests written with the string spelling of the state, built with the Allocate operator directly
+    dict(case(direct(z=[10], a=[11]), [A([0], 1, True), G(1, d0), D([0]), A([1], 0, True), G(3, 0, d1), D([1]), A([2], 0), G(1, d2)]), strstate=True),
+    dict(case(direct(z=[10, 11]), TWO, sem=True), strstate=True),
+    dict(case(direct(a=[11], mi=20, ar=False), [A([0], 0, True), G(3, 0, d0), G(3, 0, d0), D([0]), A([1], 1), A([2], 0), G(3, d1, d2)]), strstate=True),
 ]
 
 
